@@ -26,10 +26,12 @@ FIX = {
  "writer": "fix: a file's trailer can be written past",
  "reader": "fix: disk files are read as if their granules",
  "filter": "fix: file_util --files",
+ "sizing2": "fix: operand sizing loops forever for label,R",
 }
 
 FIXED = [
  ("C13", "C13-pcr-hang", "pcr", "assembly never finishes: LEAX T,PCR + 122 one-byte statements + T (PCR size fix-point without progress)"),
+ ("C13", "C13-indexed-label-sizing-hang", "sizing2", "assembly never finishes: LDA FOO,X + 20 NOPs + RMB 103 + FOO (label,R operand with inverted size bounds; reported by a sub-agent, then reached by the extended PCR stress workload)"),
  ("C13", "C13-operand-valuetypeerror", "operand", "ValueTypeError traceback for BVC file.asm (operand constructors let value errors through)"),
  ("C13", "C13-empty-operand-indexerror", "operand", "IndexError traceback for a branch with an empty operand"),
  ("C13", "C13-fcc-empty", "operand", "IndexError traceback for FCC without a string"),
